@@ -71,3 +71,15 @@ package thrift
 //@ roundtrip BinaryI32 [C16]: encode (*TBinaryProtocol).WriteI32 decode (*TBinaryProtocol).ReadI32 unroll 1
 //@ roundtrip BinaryI16 [C16]: encode (*TBinaryProtocol).WriteI16 decode (*TBinaryProtocol).ReadI16 unroll 1
 //@ roundtrip BinaryDouble [C16]: encode (*TBinaryProtocol).WriteDouble decode (*TBinaryProtocol).ReadDouble unroll 1
+
+// Field and list headers of the compact protocol.  A field header carries the
+// type in the low nibble and, when the id is 1..15 above the previous field's id,
+// the difference in the high nibble - otherwise the id follows as a zigzag varint.
+// The previous id is state of the protocol object (lastFieldId): it is symbolic
+// here, common to the writing and the reading side at the start, and must be in
+// step again at the end (so the next header is decoded against the right id).
+// PRECONDITIONS: a field type the protocol knows other than BOOL (whose header is
+// written together with its value) and STOP; lastFieldId within int16 (it only
+// ever holds 0 or an int16 id); a list size within int32.
+//@ roundtrip FieldHeader [C16]: encode (*TCompactProtocol).WriteFieldBegin decode (*TCompactProtocol).ReadFieldBegin unroll 3 where typeId in 3,4,6,8,10,11,12,13,14,15 where lastFieldId in -32768..32767
+//@ roundtrip ListHeader [C16]: encode (*TCompactProtocol).WriteListBegin decode (*TCompactProtocol).ReadListBegin unroll 5 where elemType in 2,3,4,6,8,10,11,12,13,14,15 where size in 0..2147483647
